@@ -49,7 +49,8 @@ def _fire_actions(clock):
     base = stoch.stoch_actions(with_stats=True, reinit=False)(clock)
     return base + [(35, st.tuples(st.just("fire"), st.integers(0, 3))),
                    (6, st.tuples(st.just("unsub"), st.integers(0, 4), st.integers(0, 3))),
-                   (4, st.tuples(st.just("sub"), st.integers(0, 4), st.integers(0, 3)))]
+                   (4, st.tuples(st.just("sub"), st.integers(0, 4), st.integers(0, 3))),
+                   (6, st.tuples(st.just("rotate"), st.integers(0, 4), st.integers(0, 3)))]
 
 
 def _listener_script(clock):
@@ -73,6 +74,7 @@ def _listener_script(clock):
         st.tuples(st.just("now"), node, PRIO),
         st.tuples(st.just("unsub"), st.integers(0, 4), st.integers(0, 3)),
         st.tuples(st.just("sub"), st.integers(0, 4), st.integers(0, 3)),
+        st.tuples(st.just("rotate"), st.integers(0, 4), st.integers(0, 3)),
     ).map(list)
     return st.lists(one, min_size=1, max_size=3)
 
